@@ -3,12 +3,12 @@
 From Coq Require Import List NArith Arith Bool Lia.
 From XmlRs Require Import Base.CPred Spec.XPathSyntax Model.Peg Model.XPathAst
   Model.ParseActionsXPath Model.XPathAstAbs Gen.GrammarXPathGen
-  Proofs.GrammarTermination Proofs.XPathParseProds Proofs.XPathParseExpr.
+  Proofs.PegTermination Proofs.XPathParseProds Proofs.XPathParseExpr.
 Import ListNotations.
 
 (** the parser of XPath expressions terminates on every input (parser half of C06) *)
 Lemma xpath_parse_terminates_proof : forall s : str, run_expr s <> Oof.
-Proof. intros s. apply xpath_grammar_terminates. Qed.
+Proof. intros s. exact (certified_grammar_terminates _ _ _ _ G_xpath_cert_c08 nt_expr s). Qed.
 
 Lemma xpath_parse_never_oof_proof : forall s : str, parse_expr s <> POof.
 Proof.
